@@ -6,7 +6,7 @@ CONSTANTS
   NVs <- NVs_all
   MaskKinds <- Masks_thorough
   SubKinds <- Subs_thorough
-  Reprs <- Reprs_all
+  Reprs <- Reprs_thorough
   BadShapes <- Bad_all
   AltLabels = TRUE
 CHECK_DEADLOCK FALSE
